@@ -81,6 +81,9 @@ type stream struct {
 	eval func(line string) (goOut string, readable string)
 	// cmp decides agreement; nil means string equality. It returns the failed direction ("" if fine).
 	cmp func(line, goOut, modelOut string) string
+	// classByDirection appends the failed direction to the disagreement class (streams that serve
+	// several properties attribute a disagreement to a property by its direction)
+	classByDirection bool
 }
 
 var streams = map[string]stream{}
@@ -169,7 +172,11 @@ func (c *ctx) flush(ps []pending) error {
 			dir = "go≠model"
 		}
 		if dir != "" {
-			c.r.Disagree(rep.Disagreement{Case: p.line, Readable: p.readable, Go: p.goOut, Model: outs[i], Direction: dir, Class: p.class})
+			cl := p.class
+			if c.s.classByDirection {
+				cl += "|" + dir
+			}
+			c.r.Disagree(rep.Disagreement{Case: p.line, Readable: p.readable, Go: p.goOut, Model: outs[i], Direction: dir, Class: cl})
 		}
 	}
 	return nil
